@@ -442,7 +442,7 @@ def settle_obligations(ctx, prop, gen, translate):
         ctx.obligation_broken("%s/Proofs.v on the regenerated %s/Gen.v (private re-check)" % (prop, prop), log)
         ctx.coq["ok"] = False
         ctx.coq["discharged"] = ctx.coq["obligations"] - sum(
-            len(vlib.count_statements(f)) for f in ctx.coq.get("files", []) if not f.endswith(("Keys.v", "Steps.v", "Cmp.v", "Prog.v", "Gen.v")))
+            len(vlib.count_statements(f)) for f in ctx.coq.get("files", []) if f.endswith(("Proofs.v", "Props.v")))
 
 
 class Gen:
